@@ -281,3 +281,253 @@ func sortStrings(ks []string) {
 
 // exported is the Go rule for the ASCII names of the fragment.
 func exported(name string) bool { return name != "" && name[0] >= 'A' && name[0] <= 'Z' }
+
+// ---- tokens back to Go types and values (replays, corpus) ---------------------------------------
+
+func namedType(pkg, name string) reflect.Type {
+	for _, t := range namedTypes {
+		if t.PkgPath() == pkg && t.Name() == name {
+			return t
+		}
+	}
+	return nil
+}
+
+// buildType reads one type from the tokens and returns the rest.
+func buildType(tk []string) (reflect.Type, []string, error) {
+	if len(tk) == 0 {
+		return nil, nil, fmt.Errorf("type tokens end early")
+	}
+	t, r := tk[0], tk[1:]
+	one := func(f func(reflect.Type) reflect.Type) (reflect.Type, []string, error) {
+		e, r2, err := buildType(r)
+		if err != nil {
+			return nil, nil, err
+		}
+		return f(e), r2, nil
+	}
+	switch t {
+	case "b":
+		return boolType, r, nil
+	case "f32":
+		return f32Type, r, nil
+	case "f64":
+		return f64Type, r, nil
+	case "s":
+		return stringType, r, nil
+	case "y":
+		return bytesType, r, nil
+	case "I":
+		return anyType, r, nil
+	case "L":
+		return one(reflect.SliceOf)
+	case "M":
+		return one(func(e reflect.Type) reflect.Type { return reflect.MapOf(stringType, e) })
+	case "P":
+		return one(reflect.PtrTo)
+	case "A":
+		if len(r) == 0 {
+			return nil, nil, fmt.Errorf("array length missing")
+		}
+		n, err := strconv.Atoi(r[0])
+		if err != nil {
+			return nil, nil, err
+		}
+		r = r[1:]
+		return one(func(e reflect.Type) reflect.Type { return reflect.ArrayOf(n, e) })
+	case "S":
+		if len(r) < 3 {
+			return nil, nil, fmt.Errorf("struct header short")
+		}
+		name, e1 := lib.UnhexF(r[0])
+		pkg, e2 := lib.UnhexF(r[1])
+		n, e3 := strconv.Atoi(r[2])
+		if e1 != nil || e2 != nil || e3 != nil {
+			return nil, nil, fmt.Errorf("bad struct header")
+		}
+		r = r[3:]
+		var fs []reflect.StructField
+		for i := 0; i < n; i++ {
+			if len(r) < 3 {
+				return nil, nil, fmt.Errorf("field header short")
+			}
+			fn, e1 := lib.UnhexF(r[0])
+			var tag []byte
+			var e2 error
+			if r[1] != "~" {
+				tag, e2 = lib.UnhexF(r[1])
+			}
+			if e1 != nil || e2 != nil {
+				return nil, nil, fmt.Errorf("bad field header")
+			}
+			emb := r[2] == "e"
+			ft, r2, err := buildType(r[3:])
+			if err != nil {
+				return nil, nil, err
+			}
+			r = r2
+			sf := reflect.StructField{Name: string(fn), Type: ft, Anonymous: emb}
+			if len(tag) > 0 {
+				sf.Tag = reflect.StructTag(fmt.Sprintf("json:%q", string(tag)))
+			}
+			if !exported(sf.Name) {
+				sf.PkgPath = "verif/hidden"
+			}
+			fs = append(fs, sf)
+		}
+		if len(name) > 0 {
+			nt := namedType(string(pkg), string(name))
+			if nt == nil {
+				return nil, nil, fmt.Errorf("unknown named type %s/%s", pkg, name)
+			}
+			return nt, r, nil
+		}
+		return reflect.StructOf(fs), r, nil
+	}
+	if len(t) == 2 && t[0] == 'i' && t[1] >= '0' && t[1] <= '9' {
+		return intTypes[t[1]-'0'], r, nil
+	}
+	return nil, nil, fmt.Errorf("bad type token %q", t)
+}
+
+// buildValue fills the settable value from the tokens and returns the rest.
+func buildValue(v reflect.Value, tk []string) ([]string, error) {
+	if len(tk) == 0 {
+		return nil, fmt.Errorf("value tokens end early")
+	}
+	t, r := tk[0], tk[1:]
+	arg := func() (string, error) {
+		if len(r) == 0 {
+			return "", fmt.Errorf("argument of %q missing", t)
+		}
+		a := r[0]
+		r = r[1:]
+		return a, nil
+	}
+	settable := v.CanSet()
+	switch t {
+	case "t", "f":
+		if settable {
+			v.SetBool(t == "t")
+		}
+		return r, nil
+	case "Y", "L", "M", "P", "J":
+		return r, nil // zero value
+	case "i":
+		a, err := arg()
+		if err != nil {
+			return nil, err
+		}
+		if settable {
+			if v.Kind() >= reflect.Uint && v.Kind() <= reflect.Uint64 {
+				u, err := strconv.ParseUint(a, 10, 64)
+				if err != nil {
+					return nil, err
+				}
+				v.SetUint(u)
+			} else {
+				i, err := strconv.ParseInt(a, 10, 64)
+				if err != nil {
+					return nil, err
+				}
+				v.SetInt(i)
+			}
+		}
+		return r, nil
+	case "d", "s", "y":
+		a, err := arg()
+		if err != nil {
+			return nil, err
+		}
+		b, err := lib.UnhexF(a)
+		if err != nil {
+			return nil, err
+		}
+		if settable {
+			switch t {
+			case "d":
+				f, err := strconv.ParseFloat(string(b), 64)
+				if err != nil {
+					return nil, err
+				}
+				v.SetFloat(f)
+			case "s":
+				v.SetString(string(b))
+			default:
+				v.SetBytes(b)
+			}
+		}
+		return r, nil
+	case "p":
+		p := reflect.New(v.Type().Elem())
+		r2, err := buildValue(p.Elem(), r)
+		if err != nil {
+			return nil, err
+		}
+		v.Set(p)
+		return r2, nil
+	case "j":
+		dt, r2, err := buildType(r)
+		if err != nil {
+			return nil, err
+		}
+		x := reflect.New(dt).Elem()
+		r3, err := buildValue(x, r2)
+		if err != nil {
+			return nil, err
+		}
+		v.Set(x)
+		return r3, nil
+	case "l", "a", "r", "m":
+		a, err := arg()
+		if err != nil {
+			return nil, err
+		}
+		n, err := strconv.Atoi(a)
+		if err != nil {
+			return nil, err
+		}
+		switch t {
+		case "l":
+			s := reflect.MakeSlice(v.Type(), n, n)
+			for i := 0; i < n; i++ {
+				if r, err = buildValue(s.Index(i), r); err != nil {
+					return nil, err
+				}
+			}
+			v.Set(s)
+		case "a":
+			for i := 0; i < n; i++ {
+				if r, err = buildValue(v.Index(i), r); err != nil {
+					return nil, err
+				}
+			}
+		case "r":
+			for i := 0; i < n; i++ {
+				if r, err = buildValue(v.Field(i), r); err != nil {
+					return nil, err
+				}
+			}
+		case "m":
+			m := reflect.MakeMap(v.Type())
+			for i := 0; i < n; i++ {
+				k, err := arg()
+				if err != nil {
+					return nil, err
+				}
+				kb, err := lib.UnhexF(k)
+				if err != nil {
+					return nil, err
+				}
+				e := reflect.New(v.Type().Elem()).Elem()
+				if r, err = buildValue(e, r); err != nil {
+					return nil, err
+				}
+				m.SetMapIndex(reflect.ValueOf(string(kb)), e)
+			}
+			v.Set(m)
+		}
+		return r, nil
+	}
+	return nil, fmt.Errorf("bad value token %q", t)
+}
